@@ -130,7 +130,7 @@ CHECKS["C07"] = dict(
 CHECKS["C08"] = dict(
     category="model_checking", design="§2 C08",
     technique="exhaustive enumeration of struct definitions (every ordered field tuple over the field alphabet) x field values; generated JS executed in Node against a stub wasm memory; reference = rustc's layout of the same definitions + reference argument flattening for both wasm ABIs",
-    text="For every struct the generated _writeToArrayBuffer output, _fromFFI read-back, the DiplomatReceiveBuf size/align of a method returning it and the argument list of a method "
+    text="For every struct the generated _writeToArrayBuffer output, _fromFFI read-back, the DiplomatReceiveBuf size/align of a method returning it (bare and wrapped in six Result/Option shapes, where the stub export writes payload and flag at rustc's offsets and the decoded arm and payload are compared) and the argument list of a method "
          "taking it (js.abi = legacy and spec) are obtained by executing the real generated .mjs, and compared with rustc's offsets/size/align for the same repr(C) definitions "
          "(32-bit pointers substituted) and with the documented wasm argument-passing rules; memory is prefilled so unwritten bytes show.",
     note="Trusted: host rustc as wasm32 layout engine for these definitions (all scalars have identical size/align), the reference flattening written from docs/wasm_abi_quirks.md "
